@@ -22,7 +22,7 @@ impl Property for Prop {
         "C20"
     }
     fn rule(&self) -> &'static str {
-        "lengths: key = payload length 0..=4000; for each: the four packet kinds x label kinds (6-byte, 3-byte, broadcast, re-use for start/complete) x seeded fragment id, protocol type >= 0x0600, total length, CRC; each well-formed description (GSE length consistent with its fields; intermediate payload >= 1 byte) is generated, compared byte for byte with the independent serialiser, parsed back (must equal the description), compared with what the encapsulator emits when driven to the same fields (complete packet; first fragment with the same split; intermediate / end from a context at the same position) and fed to the decapsulator (accepted with the same field values; first fragments are completed by a utils-generated end fragment on memories of 1, 3, 5 and 6 slots; one first fragment in eight carries the whole PDU so that the end fragment carries only the CRC). maxtotal: descriptions with total length 65530..=65535 for every label kind (18 packets each). ids: for EVERY fragment id X, two utils-generated trains in flight at once on X and a partner id (255 - X, X + 1, X + 128) on memories of 256, 255, 3 and 7 slots; one train's intermediate fragment carries all remaining bytes so that its end fragment carries only the CRC; both must be accepted and delivered with the same field values. Each of these comparisons is an evaluation; fingerprint = (kind, label kind, payload length)."
+        "lengths: key = payload length 0..=4000; for each: the four packet kinds x label kinds (6-byte, 3-byte, broadcast, re-use for start/complete) x seeded fragment id, protocol type >= 0x0600, total length, CRC; each well-formed description (GSE length consistent with its fields; intermediate payload >= 1 byte) is generated, compared byte for byte with the independent serialiser, parsed back (must equal the description), compared with what the encapsulator emits when driven to the same fields (complete packet; first fragment with the same split; intermediate / end from a context at the same position) and fed to the decapsulator (accepted with the same field values; first fragments are completed by a utils-generated end fragment on memories of 1, 3, 5 and 6 slots; one first fragment in eight carries the whole PDU so that the end fragment carries only the CRC; every other train has the receiver's label memory emptied between its fragments; every first-fragment description is also generated and parsed back with total lengths 4095, 4096, 4097, 0x1FFF, 0x8000, 0xFFFF and a random one). maxtotal: descriptions with total length 65530..=65535 for every label kind (18 packets each). ids: for EVERY fragment id X, two utils-generated trains in flight at once on X and a partner id (255 - X, X + 1, X + 128) on memories of 256, 255, 3 and 7 slots; one train's intermediate fragment carries all remaining bytes so that its end fragment carries only the CRC; both must be accepted and delivered with the same field values. Each of these comparisons is an evaluation; fingerprint = (kind, label kind, payload length)."
     }
     fn gens(&self, _cx: &Cx) -> Vec<Gen> {
         vec![Gen { name: "lengths", count: 4001, exhaustive: true }, Gen { name: "maxtotal", count: 24, exhaustive: true }, Gen { name: "ids", count: 256, exhaustive: true }]
@@ -264,6 +264,20 @@ impl Property for Prop {
                         Ok(Ok(true)) => {}
                         o => rep.violation("C20", format!("parse:first:{}", lk), || format!("parse(generate(first fragment, payload {}B, label {})) != original: {:?}", n, label_str(&label), o), &replay),
                     }
+                    // the total length is a free 16-bit field of the description: the same packet with other totals
+                    for t2 in [4095u16, 4096, 4097, 0x1FFF, 0x8000, 0xFFFF, rng.next() as u16] {
+                        rep.eval();
+                        let p2 = GseFirstFragPacket::new(gl, frag_id, t2, ptype, label, &payload);
+                        let mut b2 = vec![0u8; gl as usize + 2];
+                        let w2 = wire::serialise(&Fields { kind: Kind::First, lt, frag_id, total_len: t2, ptype, label: &lb, exts: &[], final_ext: false, payload: &payload, crc: 0 });
+                        match guard(|| {
+                            p2.generate(&mut b2);
+                            GseFirstFragPacket::parse(&b2).map(|q| q == p2)
+                        }) {
+                            Ok(Ok(true)) if b2 == w2 => {}
+                            o => rep.violation("C20", format!("generate-parse:first:total-length:{}", lk), || format!("first fragment description with total length {}: generate {} (reference {}), parse(generate(x)) == x: {:?}", t2, hex_short(&b2, 24), hex_short(&w2, 24), o), &replay),
+                        }
+                    }
                     let mut enc = Encapsulator::new(DefaultCrc {});
                     let mut eb = vec![0u8; gl as usize + 2];
                     match guard(|| enc.encap(&pdu, frag_id, EncapMetadata::new(ptype, label), &mut eb)) {
@@ -290,6 +304,11 @@ impl Property for Prop {
                         let e = GseEndFragPacket::new((1 + rest + 4) as u16, frag_id, &pdu[n..], crc);
                         let mut ebuf = vec![0u8; 2 + 1 + rest + 4];
                         let _ = guard(|| e.generate(&mut ebuf));
+                        if n % 2 == 0 {
+                            // the label memory is emptied between the fragments (frame boundary): the end fragment of a
+                            // train whose first fragment re-used a label needs no label any more
+                            dec.reset_last_label();
+                        }
                         let d2 = dec_guard(&mut dec, &ebuf);
                         ok = matches!(&d2, Ok(Ok((DecapStatus::CompletedPkt(b, m), c))) if *c == ebuf.len() && m.pdu_len() == pdu.len() && b[..pdu.len()] == pdu[..] && m.protocol_type() == ptype && m.label() == want_label);
                         if !ok {
